@@ -554,6 +554,14 @@ func runC07(ctx *common.Ctx) error {
 			w.p.kill()
 		}
 	}()
+	if os.Getenv("VERIF_C07_ONLY") == "chunks" { // development aid: only the chunk-size scenarios
+		for _, n := range []int{1003} {
+			if err := w.chunkScenario(n); err != nil {
+				return err
+			}
+		}
+		return common.WriteCases(ctx.Out, "Run.RunC07", "case", nil, "")
+	}
 	for si, sc := range scenarios(ctx.Tier) {
 		if err := w.runScenario(si, sc); err != nil {
 			return fmt.Errorf("scenario %s: %w", sc.name, err)
@@ -591,6 +599,16 @@ func runC07(ctx *common.Ctx) error {
 	}
 	if err := w.checkpoint("COPY / MOVE out of the recovery mailbox"); err != nil {
 		return err
+	}
+	// statements over message lists run in chunks of db.ChunkLimit: one size just above it (thorough: more sizes)
+	sizes := []int{1003}
+	if ctx.Tier == "thorough" {
+		sizes = []int{999, 1000, 1001, 1003, 2001}
+	}
+	for _, n := range sizes {
+		if err := w.chunkScenario(n); err != nil {
+			return fmt.Errorf("scenario chunks (%d): %w", n, err)
+		}
 	}
 	if err := w.redownloadScenario(); err != nil {
 		return fmt.Errorf("scenario redownload: %w", err)
